@@ -1,8 +1,10 @@
 //! GEN - bounded-exhaustive input enumerators. Every generated case is run on
 //! the real code inside `catch_unwind` and compared with a reference function.
 
+pub mod graphgen;
 pub mod hexgen;
 pub mod labelgen;
+pub mod treegen;
 
 use crate::report::{Failure, Outcome};
 use serde_json::{json, Value};
@@ -120,8 +122,10 @@ pub fn outcome(prop: &str, tier: &str, level: &str, rule: &str, acc: Acc, exhaus
 
 pub fn replay(engine: &str, v: &Value) -> i32 {
     match engine {
+        "graphgen" => graphgen::replay(v),
         "hexgen" => hexgen::replay(v),
         "labelgen" => labelgen::replay(v),
+        "treegen" => treegen::replay(v),
         _ => {
             println!("unknown engine '{engine}' in replay file");
             2
